@@ -6,6 +6,15 @@ import os
 VERIF = os.path.dirname(os.path.dirname(os.path.abspath(__file__)))
 
 CHECKS = {
+    "C05": ("sequential reference model fed by the event log of a scripted coupling process (unique-id samples) run through the real multilevel engine; record-only wrappers on Statistic.add (fresh row below the allocated size)",
+            "Held-on-observed: Nl, stored rows, price, ml, vl, level means/variances, cl, cost, kurtosis recomputed from exactly the logged samples over adaptive histories (late levels, multi-pass) and the fixed-level variant.",
+            "Single process; scalar payoff without control variates in this check; budget-limited runs are inconclusive.", "3/C05"),
+    "C06": ("(a) contract on the real allocation function with the bias tolerance of the stopping test observed by bisection; (b) recorded-event checker over runs of the real engine with wrapped criteria / allocation callables",
+            "Held-on-observed: sum V_l/N_l + T^2 <= rmse^2 on vectors with dynamic range 1e-12..1e6 and zeros; runs never exceed the maximum level, return only on a true criteria or at the maximum level with every level within the 1% rule.",
+            "Termination restated as a bound on the number of samples.", "3/C06"),
+    "C07": ("the real standard engine driven by a scripted process with unique-valued logged paths; numpy re-computation as oracle (mean, unbiased error, regression control variates)",
+            "Held-on-observed: price, per-component error, each path used once, control-variate estimator = regression estimator, = raw mean for centred controls, variance not larger.",
+            "Single process; non-degenerate controls.", "3/C07"),
     "C17": ("history-replay monitor: every underlying x payoff evaluated on a fresh product and on a long-lived one after generated histories (other paths, knocking paths, representation switches), in both representations; harness-side path scans and algebraic identities as oracle",
             "Held-on-observed: purity, identity = log representation, parity / spread / butterfly / digital identities, knock-in + knock-out = vanilla with the barrier event scanned by the harness, averages within extremes, default times, n-th-to-default monotone, notional linearity.",
             "LookBack excluded; rate payoffs (Bond, Cap, Ratchet, Swaption) not exercised.", "3/C17"),
